@@ -104,6 +104,7 @@ fn random_case(r: &PairRecipe, max_elems: usize) -> Option<FwdCase> {
 pub fn dispatch(kind: &str, v: &Value) -> Option<Outcome> {
     match kind {
         "forward-op" => serde_json::from_value::<FwdCase>(v.clone()).ok().map(|c| c.run()),
+        "forward-op-reuse-sequence" => serde_json::from_value::<ReuseSeqCase>(v.clone()).ok().map(|c| c.run()),
         _ => None,
     }
 }
@@ -161,6 +162,37 @@ pub fn campaigns(ctx: &Ctx) -> Stats {
         c.leaves[1].vals = c.leaves[0].vals.clone();
         c.second_is_view_of_first = Some(b.clone());
         Some(c)
+    }));
+    // ONE operand (or a clone of it) against two or three different partners, one call after the other: a result must
+    // not depend on what the same object was broadcast against before (offset or index tables remembered per array)
+    st.merge(ctx.run_indexed("reused-operand-against-several-partners", ctx.tier.pick(60_000, 1_500_000), None, |i| {
+        let z = mix(i ^ 0xC04A ^ ctx.seed.wrapping_mul(0x9E3779B1));
+        let a = shapes[(z % ns) as usize].clone();
+        let partner = |mut y: u64| -> Vec<usize> {
+            let rb = 1 + (y % 4) as usize;
+            y /= 4;
+            let mut b = vec![];
+            for j in 0..rb {
+                let d = if j < a.len() { a[a.len() - 1 - j] } else { 1 };
+                b.push(if d == 1 { 1 + (y % 3) as usize } else if y % 3 == 0 { 1 } else { d });
+                y /= 3;
+            }
+            b.reverse();
+            b
+        };
+        let ncalls = 2 + ((z >> 40) % 2) as usize;
+        let mut leaves = vec![LeafSpec { dims: a.clone(), vals: wide_vals(z, numel(&a), 0, 0, true), tracked: (z >> 50) & 1 == 1 }];
+        let mut calls = vec![];
+        for c in 0..ncalls {
+            let y = mix(z ^ (c as u64 + 1));
+            // the third call repeats the first partner's shape (the table of the second call must not stick either)
+            let b = if c == 2 { leaves[1].dims.clone() } else { partner(y >> 8) };
+            leaves.push(LeafSpec { dims: b.clone(), vals: wide_vals(y, numel(&b), 0, 0, true), tracked: false });
+            let me = ReuseArg { leaf: 0, view: None, via_clone: (y >> 3) & 1 == 1 };
+            let other = ReuseArg { leaf: c + 1, view: None, via_clone: false };
+            calls.push(ReuseCall { op: op_of((y % NOPS) as usize), args: if (y >> 4) & 1 == 0 { vec![me, other] } else { vec![other, me] } });
+        }
+        Some(ReuseSeqCase { leaves, calls })
     }));
     // value patterns and huge / tiny magnitudes (value-dependent shortcuts), and last dimensions around block lengths
     st.merge(ctx.run_indexed("value-patterns", NOPS * (N_PATTERNS * N_PATTERNS) as u64 * 2, None, |i| {
